@@ -21,8 +21,8 @@ func init() {
 		ID: "C11", Level: "exploration", Primary: "states", EvalCount: "stops",
 		Rule: "liveness restated as bounded progress: Stop must return within B=10s (an order of magnitude above what a correct implementation needs) WITHOUT any client action, and Run must then return nil. " +
 			"One evaluation = a fresh server brought into a connection state (none; 1/8/64 idle; half a frame sent; TLS listener with no / partial ClientHello; StartTLS-upgraded idle; StartTLS answered but handshake never started; busy pipelining; clients not reading " +
-			"large responses so that handlers block in Write (60KB frames that block in the write, 300-byte frames from two handlers that block in the flush, and a server configured with a 10-minute write timeout) - alone and combined ON THE SAME CONNECTION with an Unbind, a half-close, a pending StartTLS handshake or half a frame; all of them together) x optional concurrent second Stop, then Stop is called; plus Stop racing Run's start-up with no client at all (Run parked at its own log statements through the user-supplied logger, and random microsecond offsets), a connection with a history of 150 recovered handler panics, idle connections left over by a PRNG-chosen history of 4..20 connections coming and going, 33/40/100 idle connections, and clients that keep connecting (and then sit idle) while Stop runs on a server with a 10-minute read timeout. If B expires the harness dumps goroutines and lets the clients go: a Stop parked in " +
-			"WaitGroup.Wait with a gldap connection goroutine parked in network I/O, released only when the clients close, is a violation, and so is a Stop that is parked while every handler still running sits inside gldap's own ResponseWriter.Write; anything else is inconclusive. " +
+			"large responses so that handlers block in Write (60KB frames that block in the write, 300-byte frames from two handlers that block in the flush, and a server configured with a 10-minute write timeout) - alone and combined ON THE SAME CONNECTION with an Unbind, a half-close, a pending StartTLS handshake or half a frame; all of them together) x optional concurrent second Stop, then Stop is called; plus Stop racing Run's start-up with no client at all (Run parked at its own log statements through the user-supplied logger, and random microsecond offsets), a connection with a history of 150 recovered handler panics, idle connections left over by a PRNG-chosen history of 4..20 connections coming and going, 33/40/100 idle connections, and clients that keep connecting (and then sit idle) while Stop runs on a server with a 10-minute read timeout. If B expires the harness dumps goroutines and lets the clients go: a Stop goroutine parked (in any wait state) " +
+			"with a gldap connection goroutine parked in network I/O, released only when the clients close, is a violation; so is a Stop that is parked while every handler still running sits inside gldap's own ResponseWriter.Write; and so is a Stop call whose goroutine is found parked at the same place in a second dump taken 30s after every client closed its socket while no handler is running (e.g. one of two concurrent Stop calls that is never woken); anything else is inconclusive. " +
 			"distinct_nontrivial = distinct (state, #connections, second-Stop) triples with at least one connection open at Stop time",
 		Assume: []string{"handlers that block in application code (not in gldap's Write) are outside the statement: the workload's handlers only ever block inside ResponseWriter.Write"},
 		Phases: func(tier string, seed int64) []Phase {
@@ -93,7 +93,7 @@ func c11Startup(c *Ctx, pki *PKI, pattern string, useTLS bool, round int, r *Ran
 		dump := gldapGoroutines()
 		stopParked, runParked := false, false
 		for _, g := range dump {
-			if strings.Contains(g, "(*Server).Stop") && (strings.Contains(g, "sync.(*WaitGroup).Wait") || strings.Contains(g, "sync.(*RWMutex)")) {
+			if goroutineParkedUnder(g, "(*Server).Stop") {
 				stopParked = true
 			}
 			if strings.Contains(g, "(*Server).Run(") && strings.Contains(g, "sync.(*RWMutex).Lock") {
@@ -104,7 +104,21 @@ func c11Startup(c *Ctx, pki *PKI, pattern string, useTLS bool, round int, r *Ran
 		if stopParked && runParked {
 			c.Violate("Stop deadlocks with Run's start-up", fmt.Sprintf("%s: Stop had not returned after %s with no client connected; Stop and Run wait for each other", sig, c11Bound), det)
 		} else {
-			c.Inconclusive(fmt.Sprintf("%s: Stop exceeded %s but the dump does not show the Stop/Run deadlock shape", sig, c11Bound))
+			// second look after a long while: nobody ever connected and no handler exists, so a Stop goroutine that is
+			// parked at the same place in both dumps waits for something that gldap itself has to provide
+			returned := false
+			select {
+			case <-stopRet:
+				returned = true
+			case <-time.After(patience):
+			}
+			still := parkedIDs(gldapGoroutines(), "(*Server).Stop", parkedIDs(dump, "(*Server).Stop", nil))
+			if !returned && len(still) > 0 {
+				det["stop_goroutines_parked_in_both_dumps"] = len(still)
+				c.Violate("Stop does not return although no client ever connected", fmt.Sprintf("%s: Stop had not returned after %s + %s; its goroutine is parked at the same place in two dumps", sig, c11Bound, patience), det)
+			} else {
+				c.Inconclusive(fmt.Sprintf("%s: Stop exceeded %s but the dump does not show the Stop/Run deadlock shape", sig, c11Bound))
+			}
 		}
 		return
 	}
@@ -476,7 +490,7 @@ wait:
 	dump := gldapGoroutines()
 	stopParked, connParked := false, false
 	for _, g := range dump {
-		if strings.Contains(g, "(*Server).Stop") && strings.Contains(g, "sync.(*WaitGroup).Wait") {
+		if goroutineParkedUnder(g, "(*Server).Stop") {
 			stopParked = true
 		}
 		if (strings.Contains(g, "(*conn).serveRequests") || strings.Contains(g, "(*ResponseWriter).Write") || strings.Contains(g, "(*conn).close")) &&
@@ -498,7 +512,7 @@ wait:
 	}
 	released = returned == nStops
 	cwg.Wait()
-	det := map[string]any{"state": sig, "bound_s": c11Bound.Seconds(), "stop_parked_in_WaitGroup_Wait": stopParked, "connection_goroutine_parked_in_io": connParked,
+	det := map[string]any{"state": sig, "bound_s": c11Bound.Seconds(), "stop_goroutine_parked": stopParked, "connection_goroutine_parked_in_io": connParked,
 		"released_after_clients_closed": released, "release_latency_ms": time.Since(tRelease).Milliseconds(), "goroutines": trimDump(dump, 3)}
 	connGoroutine := false
 	for _, g := range dump {
@@ -513,16 +527,55 @@ wait:
 	} else if stopParked && connGoroutine && inHandlers.Load() == 0 {
 		// no application handler is running, so nothing outside gldap can be what Stop is waiting for
 		c.Violate("Stop blocks although no handler is running: "+st.Name,
-			fmt.Sprintf("state %s: Stop had not returned after %s; it is parked in WaitGroup.Wait, a gldap connection goroutine is still parked and no handler is running (released after the clients closed: %v)", sig, c11Bound, released), det)
+			fmt.Sprintf("state %s: Stop had not returned after %s; its goroutine is parked, a gldap connection goroutine is still parked and no handler is running (released after the clients closed: %v)", sig, c11Bound, released), det)
 	} else if inWrite := countGoroutines(dump, "(*ResponseWriter).Write"); stopParked && inHandlers.Load() > 0 && int64(inWrite) >= inHandlers.Load() {
 		// every handler that is still running sits inside gldap's own Write (the workload's handlers block nowhere
 		// else): whatever Write is parked on - the network, or gldap's writer lock - Stop has to get it out of there
 		det["handlers_parked_inside_ResponseWriter_Write"] = inWrite
 		c.Violate("Stop blocks while handlers are parked inside ResponseWriter.Write: "+st.Name,
 			fmt.Sprintf("state %s: Stop had not returned after %s; %d handlers are still running and all of them are parked inside gldap's ResponseWriter.Write (released after the clients closed: %v)", sig, c11Bound, inHandlers.Load(), released), det)
+	} else if still := parkedIDs(gldapGoroutines(), "(*Server).Stop", parkedIDs(dump, "(*Server).Stop", nil)); !released && len(still) > 0 && inHandlers.Load() == 0 {
+		// second look, patience after every client closed its socket: no handler is running and a Stop goroutine is
+		// parked where it was parked before - it waits for something that only gldap itself can provide
+		det["stop_goroutines_parked_in_both_dumps"] = len(still)
+		c.Violate("Stop does not return although every client has gone and no handler is running: "+st.Name,
+			fmt.Sprintf("state %s: %d of %d Stop calls had not returned %s after the clients closed their sockets (and %s before that without client action)", sig, nStops-returned, nStops, patience, c11Bound), det)
 	} else {
 		c.Inconclusive(fmt.Sprintf("state %s: Stop exceeded %s but the goroutine dump does not show the client-held shape (stopParked=%v connParked=%v released=%v)", sig, c11Bound, stopParked, connParked, released))
 	}
+}
+
+// goroutineParkedUnder: the goroutine has the frame and is in a wait state (anything but running/runnable/syscall).
+func goroutineParkedUnder(g, frame string) bool {
+	if !strings.Contains(g, frame) {
+		return false
+	}
+	i := strings.Index(g, "[")
+	j := strings.Index(g, "]")
+	if i < 0 || j < i {
+		return false
+	}
+	st := g[i+1 : j]
+	return !strings.HasPrefix(st, "running") && !strings.HasPrefix(st, "runnable") && !strings.HasPrefix(st, "syscall")
+}
+
+// parkedIDs: "goroutine N" headers of the goroutines parked under frame; with among != nil only those in it.
+func parkedIDs(dump []string, frame string, among map[string]bool) map[string]bool {
+	out := map[string]bool{}
+	for _, g := range dump {
+		if !goroutineParkedUnder(g, frame) {
+			continue
+		}
+		g = strings.TrimLeft(g, "\n")
+		id := g
+		if k := strings.Index(g, " ["); k > 0 {
+			id = g[:k]
+		}
+		if among == nil || among[id] {
+			out[id] = true
+		}
+	}
+	return out
 }
 
 func countGoroutines(dump []string, frame string) int {
